@@ -260,7 +260,7 @@ impl Report {
             "evaluations": self.evaluations, "states": self.states, "transitions": self.transitions,
             "traces_validated": self.traces_validated, "exhaustive": self.exhaustive,
             "distinct": self.distinct.iter().collect::<Vec<_>>(),
-            "samples": self.samples, "extra": self.extra, "assumptions": self.assumptions,
+            "samples": self.samples, "extra": self.extra, "assumptions": self.assumptions, "viol_counts": self.viol_counts,
             "violations": self.violations.iter().map(|v| json!({"sig": v.sig, "case": v.case, "detail": v.detail})).collect::<Vec<_>>(),
         });
         if let Some(d) = path.parent() {
@@ -302,6 +302,63 @@ impl Report {
                 }
             }
             self.violations.push(Violation { sig, case: x["case"].clone(), detail: x["detail"].as_str().unwrap_or("").to_string() });
+        }
+    }
+
+    /// Merge a partial written by a shard of the SAME engine (a child process that ran a slice of the work list):
+    /// counters add up, array-valued extras are concatenated, violation counts are kept per signature.
+    pub fn merge_shard(&mut self, path: &Path) {
+        let txt = std::fs::read_to_string(path).unwrap_or_else(|e| machinery_failure(&format!("read shard {path:?}: {e}")));
+        let v: Value = serde_json::from_str(&txt).unwrap_or_else(|e| machinery_failure(&format!("shard json: {e}")));
+        let n = |k: &str| v[k].as_u64().unwrap_or(0);
+        self.evaluations += n("evaluations");
+        self.states += n("states");
+        self.transitions += n("transitions");
+        self.traces_validated += n("traces_validated");
+        self.exhaustive &= v["exhaustive"].as_bool().unwrap_or(false);
+        for d in v["distinct"].as_array().cloned().unwrap_or_default() {
+            if let Some(x) = d.as_u64() {
+                self.distinct.insert(x);
+            }
+        }
+        for s in v["samples"].as_array().cloned().unwrap_or_default() {
+            self.sample(s);
+        }
+        if let Some(m) = v["extra"].as_object() {
+            for (k, val) in m {
+                match (self.extra.get(k).cloned(), val) {
+                    (Some(Value::Array(mut a)), Value::Array(b)) => {
+                        a.extend(b.iter().cloned());
+                        self.extra.insert(k.clone(), Value::Array(a));
+                    }
+                    (Some(a), b) if a.is_u64() && b.is_u64() => {
+                        self.extra.insert(k.clone(), json!(a.as_u64().unwrap_or(0) + b.as_u64().unwrap_or(0)));
+                    }
+                    (_, b) => {
+                        self.extra.insert(k.clone(), b.clone());
+                    }
+                }
+            }
+        }
+        let counts: BTreeMap<String, u64> = v["viol_counts"].as_object().map(|m| m.iter().map(|(k, x)| (k.clone(), x.as_u64().unwrap_or(1))).collect()).unwrap_or_default();
+        for (k, c) in &counts {
+            *self.viol_counts.entry(k.clone()).or_insert(0) += c;
+        }
+        for x in v["violations"].as_array().cloned().unwrap_or_default() {
+            let mut sig = BTreeMap::new();
+            if let Some(m) = x["sig"].as_object() {
+                for (k, val) in m {
+                    sig.insert(k.clone(), val.as_str().unwrap_or("").to_string());
+                }
+            }
+            let viol = Violation { sig, case: x["case"].clone(), detail: x["detail"].as_str().unwrap_or("").to_string() };
+            if !counts.contains_key(&viol.sig_string()) {
+                *self.viol_counts.entry(viol.sig_string()).or_insert(0) += 1;
+            }
+            let have = self.violations.iter().filter(|y| y.sig == viol.sig).count() as u64;
+            if have < MAX_STORED_PER_SIG {
+                self.violations.push(viol);
+            }
         }
     }
 
